@@ -448,9 +448,9 @@ func runC03(c *ctx) {
 	c.stat("exhaustive_two_ingresses", n)
 	// random worlds
 	r := gen.New(c.seed)
-	k := 350
+	k := 2000
 	if c.thorough() {
-		k = 6000
+		k = 20000
 	}
 	for i := 0; i < k; i++ {
 		g := &syncGen{r: r.Fork(), paths: syncPaths, tlsProb: [2]int{1, 3}}
